@@ -330,3 +330,46 @@ Proof.
 Qed.
 
 End Laws.
+
+(** * The crosser only consults the tangent test of its own fixed edge *)
+Section TangentExt.
+Variable point : Type.
+Variable peq : point -> point -> bool.
+Variable sign triage : point -> point -> point -> Z.
+Variables tangent1 tangent2 : point -> point -> point -> point -> bool.
+Variable refdir : point -> point.
+Variables a b : point.
+Hypothesis same : forall c d, tangent1 a b c d = tangent2 a b c d.
+
+Lemma chain_tangent_ext s d :
+  chain point peq sign triage tangent1 a b s d = chain point peq sign triage tangent2 a b s d.
+Proof. unfold chain, slow. now rewrite same. Qed.
+
+Lemma step_tangent_ext s o :
+  step point peq sign triage tangent1 refdir a b s o = step point peq sign triage tangent2 refdir a b s o.
+Proof.
+  destruct o; cbn [step]; unfold eov_chain; now rewrite ?chain_tangent_ext.
+Qed.
+
+Lemma run_tangent_ext : forall ops s,
+  run point peq sign triage tangent1 refdir a b s ops = run point peq sign triage tangent2 refdir a b s ops.
+Proof.
+  induction ops as [|o rest IH]; intro s; cbn [run]; [reflexivity|].
+  rewrite step_tangent_ext. destruct (step point peq sign triage tangent2 refdir a b s o) as [s' r].
+  now rewrite IH.
+Qed.
+
+Lemma crossing_sign_tangent_ext c d :
+  crossing_sign point peq sign triage tangent1 a b c d = crossing_sign point peq sign triage tangent2 a b c d.
+Proof. unfold crossing_sign. now rewrite chain_tangent_ext. Qed.
+
+Lemma stateless_run_tangent_ext : forall ops p,
+  stateless_run point peq sign triage tangent1 refdir a b p ops =
+  stateless_run point peq sign triage tangent2 refdir a b p ops.
+Proof.
+  induction ops as [|o rest IH]; intro p; cbn [stateless_run]; [reflexivity|].
+  rewrite IH. f_equal. f_equal.
+  destruct o; cbn [stateless_expected]; unfold edge_or_vertex_crossing;
+    now rewrite ?crossing_sign_tangent_ext.
+Qed.
+End TangentExt.
